@@ -360,7 +360,7 @@ pub fn one_case(ctx: &Ctx, case: u64, l: &mut Local) {
             let seg = b64e(&bytes);
             let good_h = if r.chance(40) {
                 // header whose alg (or typ / kid) holds multi-byte characters at every small byte offset
-                let a = *r.pick(&["ES2\u{e9}", "non\u{e9}", "\u{e9}\u{e9}", "ES25\u{1f600}", "E\u{1f600}", "\u{1f600}", "none\u{e9}", "HS2\u{20ac}6", "", "NONE", "nOnE"]);
+                let a = *r.pick(&["ES2\u{e9}", "non\u{e9}", "\u{e9}\u{e9}", "ES25\u{1f600}", "E\u{1f600}", "\u{1f600}", "none\u{e9}", "HS2\u{20ac}6", "", "NONE", "nOnE", "E\u{17f}56", "\u{20ac}S2", "ES\u{b2}6", "H\u{e9}256", "\u{e9}S256"]);
                 match r.below(3) {
                     0 => b64e(json!({"alg": a}).to_string().as_bytes()),
                     1 => b64e(json!({"alg": "ES256", "typ": a}).to_string().as_bytes()),
@@ -607,6 +607,7 @@ pub fn one_case(ctx: &Ctx, case: u64, l: &mut Local) {
                     payload.as_object_mut().unwrap().remove("iss");
                 }
                 2 => payload["iss"] = rand_json(&mut r, 1),
+                3 => payload["iss"] = json!(*r.pick(&["https://example.com/100%\u{20ac}", "%a\u{e9}\u{2026}", "%", "%4", "%e9%", "%%%\u{1f600}", "a%\u{e9}", "\u{e9}%41", "https://issuer.example/%41%7E"])),
                 _ => payload["iss"] = json!("https://issuer.example/A"),
             }
             match r.below(8) {
@@ -888,7 +889,8 @@ pub fn one_case(ctx: &Ctx, case: u64, l: &mut Local) {
                 1 => {
                     // nesting up to 64
                     let depth = 1 + r.below(64);
-                    let mut v = json!("leaf");
+                    // (sometimes with a reserved member at the very bottom: refused, and refused quickly)
+                    let mut v = if r.chance(35) { json!({*r.pick(&["_sd", "..."]): ["x"]}) } else { json!("leaf") };
                     for i in 0..depth {
                         v = if r.chance(50) { json!({ format!("k{i}"): v }) } else { json!([v]) };
                     }
